@@ -1602,6 +1602,12 @@ class Exec(Interp):
         ret, used = lemmas.apply_contract(self, R, callee, args, ret)
         if used:
             self.contract_uses[callee["name"]] = self.contract_uses.get(callee["name"], 0) + 1
+        if getattr(self, "ret_override", None) is not None:
+            # box theorems on a callee's return case (C03): the continuation is analysed under one variant
+            ret = self.ret_override(self, R, callee, args, ret)
+            if R.dead:
+                S.dead = True
+                return None
         for h in self.hooks:
             h("leave", interp=self, inst=callee, ret=ret, state=R, site=site)
         # drop the callee frame, keep everything else (callee may have written through &mut)
